@@ -39,7 +39,7 @@ class _RawFile(io.FileIO):
 
     def write(self, b):
         pos = self.tell()
-        b = bytes(b)
+        b = self._tracer.shorten(bytes(b))
         n = io.FileIO.write(self, b)
         if n is None:
             n = 0
@@ -89,6 +89,29 @@ class _OsProxy(object):
             return io.BufferedWriter(raw)
         return io.BufferedReader(raw)
 
+    # --- raw writes through a file descriptor, next to a (buffered) file object or without one
+    def pwrite(self, fd, data, offset):
+        data = self._t.shorten(bytes(data)) if self._t.path_of_fd(fd) is not None else data
+        n = _os.pwrite(fd, data, offset)
+        path = self._t.path_of_fd(fd)
+        if path is not None:
+            self._t.log(('write', self._t.rel(path), offset, bytes(data)[:n]))
+        return n
+
+    def write(self, fd, data):
+        path = self._t.path_of_fd(fd)
+        pos = _os.lseek(fd, 0, 1) if path is not None else None
+        if path is not None:
+            data = self._t.shorten(bytes(data))
+        n = _os.write(fd, data)
+        if path is not None:
+            self._t.log(('write', self._t.rel(path), pos, bytes(data)[:n]))
+        return n
+
+    def close(self, fd):
+        self._t.fd_paths.pop(fd, None)
+        return _os.close(fd)
+
     def rename(self, src, dst, **kw):
         _os.rename(src, dst, **kw)
         self._t.moved(src, dst)
@@ -134,12 +157,32 @@ class Tracer(object):
         self._patched = []
         self.enabled = True
         self.live = weakref.WeakSet()      # open raw files, to follow them across rename / unlink
+        self.short_write = False           # fault: the next raw write of more than one byte is a short write
+
+    def shorten(self, b):
+        """fault injection: when armed, the next raw write accepts only the first half of its bytes (write(2) may
+        return a short count: disk nearly full, RLIMIT_FSIZE, signal); the caller sees the short count."""
+        if self.short_write and self.enabled and len(b) > 1:
+            self.short_write = False
+            return b[:len(b) // 2]
+        return b
 
     # --- recording
     def canon(self, path):
         p = _os.path.abspath(_os.fsdecode(path))
         d, b = _os.path.split(p)
         return _os.path.join(_os.path.realpath(d), b)     # do not resolve a final symlink component
+
+    def path_of_fd(self, fd):
+        """current name of the file behind a descriptor that was opened through the tracer (None: not ours / no name)"""
+        for f in list(self.live):
+            try:
+                if not f.closed and f.fileno() == fd:
+                    return f._tpath
+            except (OSError, ValueError):
+                pass
+        p = self.fd_paths.get(fd)
+        return None if p is None else self.canon(p)
 
     def moved(self, src, dst):
         """the directory entry src now is dst (rename) or is gone (dst None): re-name the open files behind it."""
